@@ -79,7 +79,7 @@ theorem wfEv_iff (r : Route) :
     (∀ p, wfEv r (.repetition p) ↔ tableRouted r p = true) := by
   refine ⟨fun ver es => ?_, fun p ver body => ?_, fun _ => Iff.rfl, fun _ => Iff.rfl⟩
   · unfold wfEv; rw [patRouted_iff]
-  · unfold wfEv; rw [pmtRouted_iff]
+  · simp only [wfEv]; rw [pmtRouted_iff]
 
 /-! ### (1) one event -/
 
@@ -245,6 +245,8 @@ theorem route_of_handler (r : Route) (pid : Nat) (o : Option Handler)
       simp [kindOf]
     · obtain ⟨s, rfl, -⟩ := h
       simp [kindOf]
+      intro a1 p1 s1 reg e1 e2 _ _
+      exact ⟨e1, e2⟩
     · have h' : o = some (.recorder tag) := h
       subst h'
       simp [kindOf]
@@ -252,11 +254,13 @@ theorem route_of_handler (r : Route) (pid : Nat) (o : Option Handler)
       by_cases hp : isPes st = true
       · rw [if_pos hp] at h
         obtain ⟨f, rfl⟩ := h
-        simp [kindOf, hp]
+        simp [kindOf]
+        exact ⟨_, _, ⟨rfl, rfl⟩, hp⟩
       · rw [if_neg hp] at h
         subst h
         have hp' : isPes st = false := by simpa using hp
-        simp [kindOf, hp']
+        simp [kindOf]
+        exact ⟨_, _, ⟨rfl, rfl⟩, hp'⟩
 
 /-! ### a new version takes effect for the very next transport packet -/
 
@@ -277,7 +281,7 @@ theorem takes_effect_next_packet (cfg : Cfg) (hscript : cfg.script = []) (evs : 
   rw [Ts.Props.C06.push_refines_spec]
 
 /-- … and a packet on a routed PID is consumed by exactly the handler that agrees with the route -/
-theorem next_packet_handled (r : Route) (t : Tab Handler) (c : Ctx) (pk : Pk) (h : Handler)
+theorem next_packet_handled (t : Tab Handler) (c : Ctx) (pk : Pk) (h : Handler)
     (hg : t.get pk.pid = some h) (hf : pk.flagged = false) :
     specStep App.sem (t, c) pk =
       (App.consume h c pk >>= fun x => R.ok (applyChanges (t.insert pk.pid x.1) x.2.2, x.2.1)) :=
@@ -380,17 +384,6 @@ theorem drop_steps (r : Route) (q : Nat) (h13 : q ≤ 0x1fff) :
    fun p ver body h1 h2 => pmt_drop_step r p ver body q h1 h13 h2,
    fun p ver body h1 h2 => pmt_fresh_keeps r p ver body q h1 h2⟩
 
-/-- **The "dropped PIDs" clause at full strength, for PMTs**: in a well-formed collision-free
-history, a PID listed by a PMT version on `p` and not listed by the NEXT PMT version applied on `p` is
-un-routed after that version. -/
-def DroppedClausePmt : Prop :=
-  ∀ (pre mid : List Event) (p v1 v2 : Nat) (b1 b2 : Bytes) (q : Nat),
-    WF initRoute (pre ++ (.pmtApplied p v1 b1 :: mid ++ [.pmtApplied p v2 b2])) →
-    CollisionFree (pre ++ (.pmtApplied p v1 b1 :: mid ++ [.pmtApplied p v2 b2])) →
-    (∀ ev ∈ mid, ∀ v b, ev ≠ .pmtApplied p v b) →
-    q ∈ (streamsOf b1).map StreamInfo.pid → q ∉ (streamsOf b2).map StreamInfo.pid →
-    routeOf (run initRoute (pre ++ (.pmtApplied p v1 b1 :: mid ++ [.pmtApplied p v2 b2]))) q = none
-
 /-- **known finding F7: the clause is FALSE of the pinned code.**  Witness: PAT v0 {1 → 0x100},
 PMT v0 {0x101, 0x102}, PAT v1 {1 → 0x100, 2 → 0x110}, PMT v1 {0x101}: PID 0x102 stays routed by the
 stream request of PMT v0 (`removal_counterexample` in `Props/C05.lean` is the same history run
@@ -474,7 +467,8 @@ theorem ctl_refined :
     exact ⟨s, h1, h3⟩
   · have := hslots 0; rw [s0] at this
     obtain ⟨-, s, h1, h3, -⟩ := this
-    rw [pv] at h3
+    have pe : (run initRoute ctlHist).patEntries.map PatEntry.pid = [0x100] := by decide +kernel
+    rw [pv] at h3; rw [pe] at h1
     exact ⟨s, h1, h3⟩
   · have := hslots 0x110; rw [s110] at this; exact this
   · exact (htags 0x102 _ 5 s102).2.1
